@@ -15,12 +15,12 @@ package core
 // before following a successor.
 
 import (
-	"strings"
 	"fmt"
-	"sort"
 	"go/constant"
 	"go/token"
 	"go/types"
+	"sort"
+	"strings"
 
 	"golang.org/x/tools/go/ssa"
 )
